@@ -392,6 +392,10 @@ def match_expected(exp, got, path="$"):
     if exp[0] == "Q":
         p = check_parsed_number(exp, got)
         return ["%s: %s" % (path, p)] if p else []
+    if exp[0] == "NAN":
+        return [] if num_value(got) == "nan" else ["%s: NaN literal parsed to %s" % (path, show_tree(got)[:40])]
+    if exp[0] == "INF":
+        return [] if num_value(got) == ("-inf" if exp[1] else "inf") else ["%s: Infinity literal parsed to %s" % (path, show_tree(got)[:40])]
     if exp[0] in "UI":
         if got[0] == exp[0] and got[1] == exp[1]:
             return []
